@@ -608,7 +608,9 @@ class MarkdownNormalizer(Renderer):
             None,
         )
         if label is not None:
-            if label == link_text:
+            # A line break or a run of spaces inside the brackets is layout, not part of
+            # the label: `[ref\nlabel]` is the same shortcut reference as `[ref label]`.
+            if label == " ".join(link_text.split()):
                 return f"[{label}]"
             return f"[{link_text}][{label}]"
         title = f" {link_title}" if link_title is not None else ""
